@@ -1500,17 +1500,17 @@ class Stream(AbstractStream):
                 phases = self.phase + ''.join([i.phase for i in others])
                 self.phases = phases
             if vle:
+                if energy_balance: H = sum([i.H for i in streams], Q)
                 self._imol.mix_from([i._imol for i in streams])
                 if energy_balance: 
-                    H = sum([i.H for i in streams], Q)
                     self.vle(H=H, P=P)
                 else:
                     self.vle(T=self.T, P=P)
                 self.reduce_phases()
             else:
                 if energy_balance: 
-                    self._imol.mix_from([i._imol for i in streams])
                     H = sum([i.H for i in streams], Q)
+                    self._imol.mix_from([i._imol for i in streams])
                     if conserve_phases: 
                         self.H = H
                     else:
